@@ -168,3 +168,139 @@ Section Draws.
     fold_left (fun a i => a + member_vlc (nthN (ms_members m) i member_default) W)
               (head_zombies (ms_order m) (ms_members m)) 0.
 End Draws.
+
+(* ------------------------------------------------------------------ the multi-level calls of one step *)
+(** Each public call reaches MultiState through a short sequence of its methods; [op_actions]
+    lists them (a twin of [Sys.step] that returns the calls instead of making them;
+    MultiProofs.step_mp proves that running them IS what [step] does to MultiState). *)
+Inductive maction :=
+| AStore (idx : N) (texts bars : list line)      (* Drawable::state() of a member + DrawStateWrapper::drop *)
+| ADraw (force : bool) (extra : option (list line))   (* MultiState::draw *)
+| AClear                                           (* MultiState::clear *)
+| ASuspend (ws : list text)                        (* MultiState::suspend *)
+| ARemove (idx : N)                                (* MultiState::remove_idx *)
+| AInsert (loc : iloc)                             (* MultiState::insert *)
+| AMark (idx : N)                                  (* MultiState::mark_zombie *)
+| AAlign (a : alignment)
+| AWrite (ws : list text).                         (* the closure of suspend on a detached bar *)
+
+Section Actions.
+  Variable W H : N.
+  Variable fails : N -> bool.
+
+  Definition mp_exec1 (now : N) (m : mstate) (c : N) (a : maction) : mstate * list termop * N * bool :=
+    match a with
+    | AStore idx texts bars => (ms_store m idx texts bars, [], c, true)
+    | ADraw force extra => ms_draw W H fails m force extra now c
+    | AClear => ms_clear W H fails m c
+    | ASuspend ws => let '(m', e, c') := ms_suspend W H fails m ws now c in (m', e, c', true)
+    | ARemove idx => (ms_remove_idx m idx, [], c, true)
+    | AInsert loc => (match ms_insert m loc with Some (m1, _) => m1 | None => m end, [], c, true)
+    | AMark idx => (ms_mark_zombie W m idx, [], c, true)
+    | AAlign a => (set_ms_align m a, [], c, true)
+    | AWrite ws => let '(e, c') := emit_each fails c (map TLine ws) in (m, e, c', true)
+    end.
+
+  Fixpoint mp_run (now : N) (m : mstate) (c : N) (acts : list maction) : mstate * list termop * N :=
+    match acts with
+    | [] => (m, [], c)
+    | a :: r => let '(m1, e1, c1, _) := mp_exec1 now m c a in
+                let '(m2, e2, c2) := mp_run now m1 c1 r in
+                (m2, e1 ++ e2, c2)
+    end.
+
+  Definition stored_frame (m : mstate) (br : bar) : list line :=
+    match ms_width W m with Some _ => frame_of br | None => [] end.
+
+  Definition draw_actions (s : sys) (b : N) (force : bool) : list maction :=
+    let br := get_bar s b in
+    match b_target br with
+    | TMulti idx => [AStore idx [] (stored_frame (s_mp s) br); ADraw (force || finished br) None]
+    | _ => []
+    end.
+
+  Definition tick_actions (s : sys) (b : N) : list maction :=
+    draw_actions (upd_bar s b (fun x => set_b_tick x (sat_add64 (b_tick x) 1))) b false.
+
+  Definition pos_actions (s : sys) (b : N) (f : N -> N) (now : N) : list maction :=
+    let s1 := upd_bar s b (fun x => set_b_pos x (f (b_pos x))) in
+    let '(a, ap') := ap_allow (b_ap (get_bar s1 b)) now in
+    let s2 := upd_bar s1 b (fun x => set_b_ap x ap') in
+    if a then tick_actions s2 b else [].
+
+  Definition finish_upd (k : fin) (x : bar) : bar :=
+    let to_len x := match b_len x with Some l => set_b_pos x l | None => x end in
+    match k with
+    | FAndLeave => set_b_status (to_len x) DoneVisible
+    | FWithMessage m => set_b_msg (set_b_status (to_len x) DoneVisible) m
+    | FAndClear => set_b_status (to_len x) DoneHidden
+    | FAbandon => set_b_status x DoneVisible
+    | FAbandonWithMessage m => set_b_msg (set_b_status x DoneVisible) m
+    end.
+
+  Definition finish_actions (s : sys) (b : N) (k : fin) : list maction :=
+    draw_actions (upd_bar s b (finish_upd k)) b true.
+
+  Definition op_actions (s : sys) (now : N) (o : op) : list maction :=
+    match o with
+    | OTick b => tick_actions s b
+    | OInc b d => pos_actions s b (fun p => wadd64 p d) now
+    | ODec b d => pos_actions s b (fun p => wsub64 p d) now
+    | OSetPos b p => pos_actions s b (fun _ => p) now
+    | OSetLen b l => draw_actions (upd_bar s b (fun x => set_b_len x (Some l))) b false
+    | OIncLen b d => draw_actions (upd_bar s b (fun x => set_b_len x (option_map (fun l => sat_add64 l d) (b_len x)))) b false
+    | ODecLen b d => draw_actions (upd_bar s b (fun x => set_b_len x (option_map (fun l => sat_sub l d) (b_len x)))) b false
+    | OUnsetLen b => draw_actions (upd_bar s b (fun x => set_b_len x None)) b false
+    | OSetMsg b m => draw_actions (upd_bar s b (fun x => set_b_msg x m)) b false
+    | OSetPrefix b m => draw_actions (upd_bar s b (fun x => set_b_prefix x m)) b false
+    | OSetStyle _ _ | OResetEta _ | OResetElapsed _ => []
+    | OPrintln b msg =>
+        let br := get_bar s b in
+        match b_target br with
+        | TMulti idx => [AStore idx (text_lines msg) (stored_frame (s_mp s) br); ADraw true None]
+        | _ => []
+        end
+    | OSuspend b ws => match b_target (get_bar s b) with
+                       | TMulti _ => [ASuspend ws] | THidden => [AWrite ws] | TTerm _ => []
+                       end
+    | OReset b =>
+        draw_actions (upd_bar s b (fun x =>
+           set_b_status (set_b_ap (set_b_pos x 0) (ap_reset (b_ap x) now)) InProgress)) b false
+    | OFinish b k => finish_actions s b k
+    | OFinishUsingStyle b => finish_actions s b (b_on_finish (get_bar s b))
+    | OForceDraw b | OSetTabWidth b => draw_actions s b true
+    | ODrop b =>
+        let br := get_bar s b in
+        (if finished br then [] else finish_actions s b (b_on_finish br))
+        ++ match b_target br with TMulti idx => [AMark idx] | _ => [] end
+    | OInsert bl b =>
+        let loc :=
+          match bl with
+          | BEnd => Some LEnd
+          | BIndex i => Some (LIndex i)
+          | BFromBack i => Some (LFromBack i)
+          | BAfter r => match b_target (get_bar s r) with TMulti i => Some (LAfter i) | _ => None end
+          | BBefore r => match b_target (get_bar s r) with TMulti i => Some (LBefore i) | _ => None end
+          end in
+        match loc with
+        | Some l =>
+            match ms_insert (s_mp s) l with
+            | Some _ => AInsert l :: match b_target (get_bar s b) with
+                                     | TMulti idx0 => [AStore idx0 [] []; ADraw true None]
+                                     | _ => []
+                                     end
+            | None => []
+            end
+        | None => []
+        end
+    | ORemove b => match b_target (get_bar s b) with TMulti idx => [ARemove idx; ADraw true None] | _ => [] end
+    | OMPrintln m => [ADraw true (Some (match m with [] => [mkline KEmpty []] | _ => map (mkline KText) (lines_of m) end))]
+    | OMSuspend ws => [ASuspend ws]
+    | OMClear => [AClear]
+    | OSetAlign a => [AAlign a]
+    end.
+End Actions.
+
+(** no bar draws to a terminal of its own: every bar is detached (hidden) or a member *)
+Definition no_own_term (s : sys) : Prop :=
+  forall b, match b_target (get_bar s b) with TTerm _ => False | _ => True end.
